@@ -346,38 +346,46 @@ func hasIdleNamespace(p *Prog) bool {
 	return false
 }
 
-// hasEagerCycle: keto builds the check of `this.permits.Q(ctx)` eagerly, and
-// without consuming depth, when the leaf stands under '!' or is an operand of
-// '&&' (check/rewrites.go: only an OR of computed subject sets is deferred).
+// hasEagerCycle: keto builds the check of a `this.permits.Q(ctx)` leaf eagerly
+// and without consuming depth when the leaf is a direct child of an AND node
+// or stands under '!' directly below the permission's top rewrite
+// (check/rewrites.go: only an OR of computed subject sets is deferred; the
+// parser wraps the LEFT operand of a binary in a rewrite of its own, which
+// costs one level). With the parser's tree shapes this means: `!q`, `a && q`,
+// `a && !q`, `!q || a`, `a || !q` -- but not `q && a`, `!q && a`, `q || a`.
 // A cycle of such edges among the permissions of a namespace never finishes
-// building (unbounded recursion / goroutines, the process dies) -- reported to
-// the maintainers separately; such programs cannot be run and are counted.
+// building (unbounded recursion and goroutines; the process dies) -- reported
+// separately as a termination defect; such programs cannot be run and are
+// counted. If this model is wrong for an edited tree the runaway guard in
+// c11Shard ends the run with INFRA-ERROR instead of hanging.
 func hasEagerCycle(p *Prog) bool {
 	for _, ns := range p.NS {
 		edges := map[string]map[string]bool{}
 		for _, pm := range ns.Perms {
 			edges[pm.Name] = map[string]bool{}
-			var walk func(e *Expr, eager bool)
-			walk = func(e *Expr, eager bool) {
-				switch e.Op {
-				case 'a':
-					if e.Kind == LPermits && eager {
-						edges[pm.Name][e.Rel] = true
-					}
-				case '!':
-					walk(e.L, true)
-				case '&':
-					walk(e.L, true)
-					walk(e.R, true)
-				default:
-					walk(e.L, eager)
-					walk(e.R, eager)
+			add := func(e *Expr) {
+				if e.Op == '!' {
+					e = e.L
+				}
+				if e.Op == 'a' && e.Kind == LPermits {
+					edges[pm.Name][e.Rel] = true
 				}
 			}
-			walk(pm.Expr, false)
+			switch e := pm.Expr; e.Op {
+			case '!':
+				add(e)
+			case '&':
+				add(e.R)
+			case '|':
+				if e.L.Op == '!' {
+					add(e.L)
+				}
+				if e.R.Op == '!' {
+					add(e.R)
+				}
+			}
 		}
-		// reachability over <= 2 nodes: closure by iteration
-		for range ns.Perms {
+		for range ns.Perms { // transitive closure over <= 2 nodes
 			for a, m := range edges {
 				for b := range m {
 					for c := range edges[b] {
@@ -887,7 +895,7 @@ func c11Shard(t *testing.T, shard, of int, outPath string) {
 	rep := &c11Report{Vios: map[string]*c11Vio{}}
 	eng := newC11Engine(t, rep)
 	spaces, total := c11Spaces(ev.Thorough())
-	deadline := ev.Deadline(240, 1500)
+	deadline := ev.Deadline(285, 1500)
 	go func() { // runaway guard (machinery, not an oracle): a check that spawns goroutines without bound cannot be decided here
 		for {
 			time.Sleep(20 * time.Millisecond)
@@ -1142,7 +1150,7 @@ func TestC11(t *testing.T) {
 	run.Assume(
 		"conforming tuple = (N:o, r, subject set X:o#m) where X[] (m empty) or SubjectSet<X,m> is one of r's declared types; one object per namespace; query subjects are the subject sets occurring in the tuple set plus one fresh subject id",
 		"schema error = Result.Err carrying herodot ErrBadRequest (\"relation ... does not exist\" / malformed), ErrNotFound, or \"not implemented\"; any other error is counted (other_errors) and not judged; allowed/denied is never judged here",
-		"accepted programs in which `this.permits.X(ctx)` leaves under '!' or '&&' form a cycle among the permissions of one namespace are not run: keto builds those checks eagerly without consuming depth and never returns (counted as programs_not_run_eager_permission_cycle; this is a termination defect, not a schema error)",
+		"accepted programs in which `this.permits.X(ctx)` leaves in eager position (under '!', or right operand of '&&') form a cycle among the permissions of one namespace are not run: keto builds those checks eagerly without consuming depth and never returns (counted as programs_not_run_eager_permission_cycle; this is a termination defect, not a schema error)",
 		fmt.Sprintf("limit.max_read_depth = %d (a tuple set has <= 3 tuples and only a hop over a tuple consumes depth; a larger limit only multiplies revisits of the same nodes: two self-loop tuples under two traversals cost 2^depth sub-checks)", c11Depth),
 		"the engine runs free; each (program, mode, tuple set, query) is run once; whether a schema error surfaces could depend on short-circuiting for some operand orders, so the check is conservative (may miss, cannot invent)",
 		"converse: 'pointing at the offending token' is read as: some error lies on the token's line and its column span touches the token, with one column of slack on both sides (0- vs 1-based columns are not distinguished)",
